@@ -318,7 +318,7 @@ def _do_dump(env, op):
     names = tuple(sol.dtype.names)
     expect = expected_cells(sol)
     if op.get("dev", "sim") == "sim":
-        path = "sim://%s/%d" % (op["sol"], len(SEAM.streams))
+        path = "sim://%s.csv" % op["sol"]       # the same path for every dump of this solution: a re-dump overwrites
         SEAM.stream_plan = dec(op["plan"]) if op.get("plan") else None
         SEAM.text_buffer = int(op.get("bufsize", 8192))
         before = len(SEAM.open_handles)
@@ -337,8 +337,11 @@ def _do_dump(env, op):
         fired = list(raw.fired) if raw is not None else (["open"] if path in SEAM.streams else [])
         return ("dump", res, content, names, expect, leaked, fired, raw.writes if raw is not None else 0)
     # real file
-    path = os.path.join(env.scratch, "dump_%s_%d.csv" % (op["sol"], len(env.files)))
+    path = os.path.join(env.scratch, "dump_%s.csv" % op["sol"])     # same path for every dump of this solution
     env.files.append(path)
+    if op.get("keep_previous") and not os.path.exists(path):
+        with world._real_open(path, "w") as f:
+            f.write("stale,content\r\n1,2\r\n")
     try:
         sol.dump(path)
         res = ("returned",)
@@ -348,7 +351,8 @@ def _do_dump(env, op):
     if os.path.exists(path):
         with world._real_open(path, "rb") as f:
             content = f.read()
-        os.unlink(path)
+        if not op.get("leave"):
+            os.unlink(path)
     return ("dump", res, content, names, expect, 0, [], 0)
 
 
@@ -419,6 +423,8 @@ def run_history(spec, want_state=False):
                 tracer = Tracer(abort_at=int(f.get("at", f.get("line"))))
             elif f["kind"] == "devnull":
                 SEAM.devnull_fail = True
+            elif f["kind"] == "oom":
+                SEAM.oom_fire = int(f["k"])
         if tracer is None and i in trace_steps:
             tracer = Tracer()
         if tracer is not None:
@@ -430,11 +436,14 @@ def run_history(spec, want_state=False):
                 if tracer is not None:
                     sys.setprofile(None)
         except BaseException as e:  # noqa  (KeyboardInterrupt from an injected abort included)
-            out = ("exc", type(e).__name__, str(e)[:200], isinstance(e, world.InjectedFault))
+            out = ("exc", type(e).__name__, str(e)[:200], isinstance(e, world.InjectedFault),
+                   tuple(c.__name__ for c in type(e).__mro__))
         if SEAM.dep_fired:
             fired.append(("dep", SEAM.dep_fired, SEAM.dep_count))
         if tracer is not None and tracer.fired:
             fired.append(("abort",) + tuple(tracer.where))
+        if SEAM.oom_fired:
+            fired.append(("oom", SEAM.oom_fired, SEAM.oom_count))
         if SEAM.devnull_failed:
             fired.append(("devnull",))
             SEAM.devnull_failed = 0
@@ -453,7 +462,7 @@ def run_history(spec, want_state=False):
                     events.append(("solution-changed", sid))
                     env.sol_dig[sid] = d
         rec = {"i": i, "out": out, "fired": fired, "deps": SEAM.dep_count, "events": events,
-               "stdout_ok": sys.stdout is devnull, "devnull_opens": SEAM.devnull_opens - dn0}
+               "stdout_ok": sys.stdout is devnull, "devnull_opens": SEAM.devnull_opens - dn0, "allocs": SEAM.oom_count}
         if want_state == "steps":
             from . import discover
             rec["state"] = discover.dirty()
@@ -468,8 +477,6 @@ def run_history(spec, want_state=False):
         if want_state == "steps":
             tail["step_states"] = [r.pop("state") for r in log]
     if env.scratch:
-        try:
-            os.rmdir(env.scratch)
-        except OSError:
-            pass
+        import shutil
+        shutil.rmtree(env.scratch, ignore_errors=True)
     return {"log": log, "tail": tail}
